@@ -91,7 +91,7 @@ func HostileValues() []any {
 		math.NaN(), math.Inf(1), math.Inf(-1), math.Copysign(0, -1), math.MaxFloat64, math.SmallestNonzeroFloat64, float32(math.NaN()), float32(math.Inf(1)), math.MaxInt64, math.MinInt64,
 		uint64(math.MaxUint64), uint(1), uint8(255), int8(-128), int16(1), uintptr(1), complex(1, 2), complex64(complex(1, 1)), NamedInt(5), NamedFloat(1.5), NamedBool(true), 1e19, -1e19, 1e300, int32(math.MinInt32),
 		// strings
-		"", " ", "\x00", "\xff\xfe\xfd", "a\xc3(", string([]byte{0xed, 0xa0, 0x80}), bigStr, NamedStr("named"), NamedStr(""), []byte("bytes"), []rune("runes"), "‮​", strings.Repeat("é", 70000),
+		"", " ", "\x00", "\xff\xfe\xfd", "a\xc3(", string([]byte{0xed, 0xa0, 0x80}), bigStr, NamedStr("named"), NamedStr(""), []byte("bytes"), []rune("runes"), "‮​", strings.Repeat("é", 70000), strings.Repeat("\x80", 200), strings.Repeat("\xbf", 129), "x" + strings.Repeat("\x80", 300), strings.Repeat("\xe2\x82", 100),
 		// slices, arrays
 		[]any{}, []any{nil}, []any{nil, nil}, NamedSlice{"a", 1}, NamedStrSlice{"a"}, [3]int{1, 2, 3}, [0]string{}, [2]any{"a", nil}, []map[string]any{{"a": 1}}, []*int{&one, nil}, [][]any{{1}, nil},
 		[]HStruct{{A: "a"}}, []any{[]any{[]any{[]any{"deep"}}}}, long, []string{"x", "y"}, []int{1, 2}, []float64{1.5}, []bool{true}, []time.Time{BaseTime}, []NamedStr{"n"}, []any{map[string]any{"a": NamedMap{"b": 1}}},
